@@ -282,11 +282,178 @@ func c11Run(ctx *Ctx, c c11Case) {
 	}
 }
 
+// --- keyword-named steps and long chains --------------------------------------------------
+
+// c11Keywords: every word the grammar reserves as a literal token, and a few ordinary names as
+// controls.  Whether a word may be a member name is the grammar's business; what the property
+// demands is that every spelling of the same path - tight, spaced, commented, parenthesised -
+// is accepted or rejected alike and evaluates alike.
+var c11Keywords = []string{"and", "or", "xor", "implies", "div", "mod", "is", "as", "in", "contains", "true", "false",
+	"year", "years", "month", "months", "week", "weeks", "day", "days", "hour", "hours", "minute", "minutes", "second", "seconds", "millisecond", "milliseconds",
+	"name", "given", "active", "nosuchelement", "Patient", "this", "index", "total"}
+
+type c11WordCase struct {
+	Root string `json:"root"`
+	Word string `json:"word"`
+	Tail string `json:"tail"`
+}
+
+func c11EnumWords(yield func(c11WordCase)) {
+	for _, root := range []string{"Patient", "Patient.name", "name", "$this", "%context"} {
+		for _, w := range c11Keywords {
+			for _, tail := range []string{"", ".exists()", ".given", "[0]"} {
+				yield(c11WordCase{Root: root, Word: w, Tail: tail})
+			}
+		}
+	}
+	for _, w := range c11Keywords {
+		yield(c11WordCase{Root: "", Word: w})
+	}
+}
+
+func c11RunWords(ctx *Ctx, c c11WordCase) {
+	var forms []string
+	if c.Root == "" {
+		forms = []string{c.Word, " " + c.Word + " ", "(" + c.Word + ")", c.Word + "/* c */", "// c\n" + c.Word, "((" + c.Word + "))"}
+	} else {
+		forms = []string{
+			c.Root + "." + c.Word + c.Tail,
+			c.Root + " . " + c.Word + " " + c.Tail,
+			"(" + c.Root + ")." + c.Word + c.Tail,
+			"((" + c.Root + ")." + c.Word + ")" + c.Tail,
+			c.Root + "/* c */." + c.Word + c.Tail,
+			c.Root + "./**/" + c.Word + c.Tail,
+			c.Root + "\n.\n" + c.Word + c.Tail + " // c",
+			c.Root + "." + c.Word + c.Tail + "\t",
+		}
+	}
+	vars := progVarsFor(fixturePatient())
+	input := fixtureInput(fixturePatient())
+	first := c11Outcome(evalWith(forms[0], input, vars))
+	ctx.Eval(strings.Join(forms, "|"), true, "stage:keyword-steps", "compiles:"+fmt.Sprint(first != "compile-error"))
+	if first == "panic" {
+		ctx.Fail("Compile or Evaluate panics on a keyword-named step", forms[0])
+		return
+	}
+	for _, f := range forms[1:] {
+		got := c11Outcome(evalWith(f, input, vars))
+		if (got == "compile-error") != (first == "compile-error") {
+			ctx.Fail("spellings of one path disagree on compilability", fmt.Sprintf("%q → %s\n%q → %s", forms[0], clip(first, 200), f, clip(got, 200)))
+			return
+		}
+		if got != first {
+			ctx.Fail("spellings of one path evaluate differently", fmt.Sprintf("%q → %s\n%q → %s", forms[0], clip(first, 200), f, clip(got, 200)))
+			return
+		}
+	}
+}
+
+// A long chain: n operands joined by operators of one or two precedence levels (all left
+// associative), or one operand under d pairs of parentheses / d invocations.  Far beyond the
+// depth of the generated trees; the minimal and the fully parenthesised rendering must still
+// compile alike and evaluate alike, and for integer sums the value is known.
+type c11ChainCase struct {
+	Kind string `json:"kind"` // sum bool concat cmp-and parens calls
+	N    int    `json:"n"`
+	Ops  []int  `json:"ops"`
+}
+
+func c11GenChain(s Src) c11ChainCase {
+	c := c11ChainCase{Kind: pickOne(s, []string{"sum", "sum", "bool", "and", "implies", "cmp", "concat", "mixed", "parens", "calls"}), N: pickOne(s, []int{s.Range(2, 40), s.Range(40, 130), s.Range(130, 260)})}
+	for i := 0; i < c.N; i++ {
+		c.Ops = append(c.Ops, s.Intn(4))
+	}
+	return c
+}
+
+func c11RunChain(ctx *Ctx, c c11ChainCase) {
+	var min, full string
+	wantInt, haveWant := int64(0), false
+	switch c.Kind {
+	case "parens":
+		min, full = "1", strings.Repeat("(", c.N)+"1"+strings.Repeat(")", c.N)
+	case "calls":
+		min = "Patient.name" + strings.Repeat(".first()", c.N)
+		full = strings.Repeat("(", c.N) + "Patient.name" + strings.Repeat(".first())", c.N)
+	default:
+		var opsets = map[string][]string{"sum": {"+", "-", "+", "-"}, "bool": {"or", "xor", "or", "xor"}, "and": {"and", "and", "and", "and"}, "implies": {"implies", "implies", "implies", "implies"}, "cmp": {"=", "!=", "=", "!="}, "concat": {"&", "&", "&", "&"}, "mixed": {"+", "*", "-", "*"}}
+		operand := func(i int) string {
+			switch c.Kind {
+			case "bool", "and", "implies", "cmp":
+				return []string{"true", "false"}[c.Ops[i]%2]
+			case "concat":
+				return []string{"'a'", "'b'", "{}", "'é'"}[c.Ops[i]%4]
+			}
+			return fmt.Sprint(c.Ops[i] + 1)
+		}
+		min, full = operand(0), operand(0)
+		wantInt, haveWant = int64(c.Ops[0]+1), c.Kind == "sum"
+		for i := 1; i < c.N; i++ {
+			op := opsets[c.Kind][c.Ops[i-1]%4]
+			min += " " + op + " " + operand(i)
+			if c.Kind == "mixed" && op == "*" {
+				// `*` binds tighter: the fully parenthesised form groups it with the operand before it
+				full = c11GroupLast(full, operand(i))
+			} else {
+				full = "(" + full + " " + op + " " + operand(i) + ")"
+			}
+			if op == "+" {
+				wantInt += int64(c.Ops[i] + 1)
+			} else {
+				wantInt -= int64(c.Ops[i] + 1)
+			}
+		}
+	}
+	input := fixtureInput(fixturePatient())
+	oMin, oFull := c11Outcome(evalWith(min, input, nil)), c11Outcome(evalWith(full, input, nil))
+	ctx.Eval(c.Kind+fmt.Sprint(c.N, c.Ops), c.N > 6 && oMin != "compile-error", "stage:long-chains", "kind:"+c.Kind, fmt.Sprintf("length:%d", c.N/50*50))
+	if oMin == "panic" || oFull == "panic" {
+		ctx.Fail("Compile or Evaluate panics on a long chain", clip(min, 200))
+		return
+	}
+	if (oMin == "compile-error") != (oFull == "compile-error") {
+		ctx.Fail("renderings of a long chain disagree on compilability", fmt.Sprintf("%d operands (%s): min → %s, full → %s\nmin: %s", c.N, c.Kind, clip(oMin, 100), clip(oFull, 100), clip(min, 300)))
+		return
+	}
+	if oMin != oFull {
+		ctx.Fail("renderings of a long chain evaluate differently", fmt.Sprintf("%d operands (%s): min → %s, full → %s\nmin: %s", c.N, c.Kind, clip(oMin, 100), clip(oFull, 100), clip(min, 300)))
+		return
+	}
+	if haveWant && oMin != fmt.Sprintf("[Integer:%d]", wantInt) {
+		ctx.Fail("a long sum does not evaluate to its value", fmt.Sprintf("%s → %s, want %d", clip(min, 300), clip(oMin, 100), wantInt))
+	}
+}
+
+// c11GroupLast rewrites "(… op x)" + "* y" into "(… op (x * y))" (and "x" into "(x * y)").
+func c11GroupLast(full, y string) string {
+	if !strings.HasSuffix(full, ")") {
+		return "(" + full + " * " + y + ")"
+	}
+	// the last operand starts after the last top-level operator of the outermost group
+	depth := 0
+	for i := len(full) - 2; i > 0; i-- {
+		switch full[i] {
+		case ')':
+			depth++
+		case '(':
+			depth--
+		case ' ':
+			if depth == 0 && i+1 < len(full) && full[i+1] != '+' && full[i+1] != '-' && full[i+1] != '*' {
+				return full[:i+1] + "(" + full[i+1:len(full)-1] + " * " + y + "))"
+			}
+		}
+	}
+	return "(" + full + " * " + y + ")"
+}
+
 func TestC11(t *testing.T) {
 	r := newRec("C11",
-		"a case is one generated expression tree (typed-ish generator over all 13 precedence levels, every table function, parenthesised sub-terms, root type names in every position; 8% get an unsupported operator | in contains ~ !~) rendered minimally parenthesised per the N1 precedence table, fully parenthesised and decorated with gaps from {' ','\\n','\\t','\\r','\\r\\n','/* c */','/**/','// c' ended by \\n, \\r or \\r\\n} and, one gap in five, a generated block or line comment whose body is drawn from fragments including quotes, operators, non-ASCII text and bytes that are not UTF-8; oracles: the real parse tree of every rendering equals the generated tree, all renderings compile alike and evaluate to the same outcome on the fixture Patient + variables, String() is the source, a trailing token makes Compile fail; non-trivial = compiled, minimal ≠ full rendering, and the tree mixes ≥ 2 binary/type levels or has a polarity/invocation/indexer applied to a compound operand; distinct = FNV-64 of (min, decorated)",
+		"a case is one generated expression tree (typed-ish generator over all 13 precedence levels, every table function, parenthesised sub-terms, root type names in every position; 8% get an unsupported operator | in contains ~ !~) rendered minimally parenthesised per the N1 precedence table, fully parenthesised and decorated with gaps from {' ','\\n','\\t','\\r','\\r\\n','/* c */','/**/','// c' ended by \\n, \\r or \\r\\n} and, one gap in five, a generated block or line comment whose body is drawn from fragments including quotes, operators, non-ASCII text and bytes that are not UTF-8; oracles: the real parse tree of every rendering equals the generated tree, all renderings compile alike and evaluate to the same outcome on the fixture Patient + variables, String() is the source, a trailing token makes Compile fail; non-trivial = compiled, minimal ≠ full rendering, and the tree mixes ≥ 2 binary/type levels or has a polarity/invocation/indexer applied to a compound operand; distinct = FNV-64 of (min, decorated).  (keyword-steps) every reserved word of the grammar and a few ordinary names as a member step after five roots, in eight spellings (tight, spaced, parenthesised, commented): all spellings are accepted or rejected alike and evaluate alike.  (long-chains) 2..260 operands joined by left-associative operators of one or two levels, or one operand under up to 260 parentheses / invocations: minimal and fully parenthesised rendering compile and evaluate alike, integer sums to their value",
 		"the N1 precedence table = alternative order of `expression` in fhirpath.g4; all binary operators left-associative")
-	runProperty(t, r, Stage[c11Case]{Name: "trees", Gen: c11Gen, Run: c11Run, N: pick(6000, 150000)})
+	runProperty(t, r,
+		Stage[c11Case]{Name: "trees", Gen: c11Gen, Run: c11Run, N: pick(6000, 150000)},
+		Stage[c11WordCase]{Name: "keyword-steps", Enum: c11EnumWords, Run: c11RunWords},
+		Stage[c11ChainCase]{Name: "long-chains", Gen: c11GenChain, Run: c11RunChain, N: pick(300, 6000)})
 }
 
 // FuzzC11: the tree generator driven by go-fuzz bytes (rapid.MakeFuzz); thorough tier only.
